@@ -302,7 +302,13 @@ def _buffers (ctx, repo):
     for t, v, st, k in q.stores_in(f.node):
       if norm(t) != 'self.buf': continue
       n += 1
-      if k == 'augassign':
+      if k == 'assign' and isinstance(v, ast.BinOp) and isinstance(v.op, ast.Add) and norm(v.left) == 'self.buf':
+        ctx.ob('R-OWN', f, "received bytes are appended (`%s`)" % norm(st), True, "buf + data", (mod, st), 'D1')
+        if f.name == 'read':
+          d = q.single_def(f.node, norm(v.right))
+          good = d is not None and 'recv' in norm(d)
+          ctx.ob('R-AGREE', f, "what is appended is exactly what was received", good, "%s = %s" % (norm(v.right), norm(d)) if d is not None else "?", (mod, st), 'D1')
+      elif k == 'augassign':
         good = isinstance(st.op, ast.Add)
         ctx.ob('R-OWN', f, "received bytes are appended (`%s`)" % norm(st), good, "+=" if good else "buffer combined with %s" % type(st.op).__name__, (mod, st), 'D1')
         if good and f.name == 'read':
@@ -322,7 +328,11 @@ def _buffers (ctx, repo):
       for t, v, st, k in q.stores_in(f.node):
         if norm(t) != 'self.receive_buf': continue
         n += 1
-        if k == 'augassign':
+        if k == 'assign' and isinstance(v, ast.BinOp) and isinstance(v.op, ast.Add) and norm(v.left) == 'self.receive_buf':
+          # the append written out: buf = buf + data
+          good = f.name == '_push_receive_data' and norm(v.right) == f.params[1]
+          ctx.ob('R-OWN', f, "received bytes are appended (`%s`)" % norm(st), good, "buf + new data" if good else "unexpected append in %s" % f.qual, (iom, st), 'D1')
+        elif k == 'augassign':
           good = isinstance(st.op, ast.Add) and f.name == '_push_receive_data' and norm(st.value) == f.params[1]
           ctx.ob('R-OWN', f, "received bytes are appended (`%s`)" % norm(st), good, "+= new data" if good else "unexpected append in %s" % f.qual, (iom, st), 'D1')
         elif f.name == '__init__':
